@@ -23,6 +23,11 @@ def tasks(tier, seed=0):
     for fam in ("bool", "fp32", "fp64"):
         out.append(task(M, "ob_roundtrip", f"z3rt.{fam}/roundtrip", ["C09"], replay="vf.contracts.z3rt:replay", family=fam, w=0, tier=tier))
     out.append(task(M, "ob_coverage", "z3rt.coverage/every-mapped-kind-exercised", ["C09"], tier=tier))
+    # the simplification cache (claripy/algorithm/simplify.py): every entry is stored under the hash of the expression it is the simplification of and
+    # has that expression's meaning - the same obligation as under C07, which adds the annotation clauses
+    out.append(task("vf.contracts.annos", "ob_algo_simplify", "annos.algorithm.simplify/meaning+clauses", ["C07", "C09"], tier=tier))
+    out.append(task("vf.contracts.annos", "ob_algo_simplify", "annos.algorithm.simplify[conjunction]/meaning+clauses", ["C07", "C09"], tier=tier, shape="and"))
+    out.append(task(M, "ob_symbol_history", "z3rt.symbol-leaf/sort-independent-of-history", ["C09", "C05"], replay="vf.contracts.z3rt:replay", tier=tier))
     out.append(task(M, "ob_totality", "z3rt.totality/all-claripy-operators", ["C09"], replay="vf.contracts.z3rt:replay", tier=tier))
     out.append(task("vf.contracts.frontend", "ob_simplify", "frontend.ConstrainedFrontend.simplify/models-unchanged", ["C09", "C07"], tier=tier))
     return out
